@@ -30,7 +30,8 @@ class Prop(common.PropertyCheck):
             D = rng.randrange(2, 6)
             nc = rng.randrange(1, D + 1)
             yield {'k': 'mef', 'cont': rng.choice(['sample', 'sample', 'array']), 'D': D, 'nc': nc, 'seed': rng.randrange(1 << 30),
-                   'req': rng.choice(['none', 'scalar', 'subset', 'subset', 'all_reordered', 'uncovered', 'empty']), 'negdata': rng.random() < 0.4,
+                   'req': rng.choice(['none', 'scalar', 'subset', 'subset', 'all_reordered', 'uncovered', 'empty', 'repeated']), 'negdata': rng.random() < 0.4,
+                   'dupnames': rng.random() < 0.2,
                    'scform': rng.choice(['names', 'pos', 'mixed', 'default']), 'bad': rng.choice([None] * 9 + ['len']),
                    'neg': rng.random() < 0.25}
         # samples of more than 2**20 events, not a multiple of it (block-wise implementations)
@@ -45,20 +46,28 @@ class Prop(common.PropertyCheck):
         D, nc = case['D'], case['nc']
         if case['cont'] == 'sample':
             spec = samples.spec_rich(r, N=r.choice([0, 1, 9]), D=D, datatype='F' if case.get('negdata') else 'I')
+            if case.get('dupnames') and D >= 3:
+                spec['names'][2] = spec['names'][1]      # two columns share a $PnN: they can only be told apart by position
             d, _ = samples.load(spec, name='c06.fcs')
             names = list(d.channels)
+            spell_names = names
+            if case.get('dupnames') and D >= 3:
+                spell_names = None                       # address every column by position in this case
         else:
             d = np.array([[r.randrange(-300 if case.get('negdata') else 0, 1024) for _ in range(D)] for _ in range(r.choice([0, 1, 9]))], dtype=np.float64).reshape(-1, D)
             names = None
+            spell_names = None
         cols = r.sample(range(D), nc)              # column of curve k is cols[k]
         form = case['scform']
+        if form == 'default' and case.get('dupnames') and case['cont'] == 'sample':
+            form = 'pos'        # the default (the sample's channel names) cannot address the second of two same-named columns
         if form == 'default':
             cols = list(range(D)); nc = D
             sc_channels = None
         else:
             def spell(c):
-                if names and (form == 'names' or (form == 'mixed' and r.random() < 0.5)):
-                    return names[c]
+                if spell_names and (form == 'names' or (form == 'mixed' and r.random() < 0.5)):
+                    return spell_names[c]
                 if case.get('neg') and r.random() < 0.5:
                     return c - D
                 return c
@@ -68,9 +77,12 @@ class Prop(common.PropertyCheck):
         def spell2(c):
             if case.get('neg') and r.random() < 0.5:
                 return c - D
-            return names[c] if (names and r.random() < 0.5) else c
+            return spell_names[c] if (spell_names and r.random() < 0.5) else c
         if req == 'none':
             channels, want = None, list(cols)
+        elif req == 'repeated':
+            # the same channel requested twice (by other spellings where possible): converted once
+            c = r.choice(cols); channels, want = [spell2(c), spell2(c)] + ([spell2(c)] if r.random() < 0.3 else []), [c]
         elif req == 'empty':
             # an explicitly empty request converts nothing
             channels, want = r.choice([[], (), []]), []
@@ -138,8 +150,9 @@ class Prop(common.PropertyCheck):
         if names:
             st1 = fpm.state(t)
             out['meta_same'] = [a for a, b in zip(st0, st1) if a != b and a[0] != 'range'] == []
-            out['range'] = [list(x) if x is not None else None for x in t.range()]
-            out['in_range'] = [list(x) if x is not None else None for x in d.range()]
+            # by position (a by-name query cannot reach the second of two same-named columns)
+            out['range'] = [list(t.range(i)) if t.range(i) is not None else None for i in range(t.shape[1])]
+            out['in_range'] = [list(d.range(i)) if d.range(i) is not None else None for i in range(d.shape[1])]
         # joint permutations of the (curve, channel) pairing must not matter
         if sc_channels is not None and len(sc_channels) == ncur:
             perms = list(itertools.permutations(range(ncur))) if ncur <= 4 else [tuple(np.random.RandomState(case['seed'] % 1000 + i).permutation(ncur)) for i in range(12)]
@@ -147,7 +160,7 @@ class Prop(common.PropertyCheck):
             for p in perms:
                 try:
                     t2 = FlowCal.transform.to_mef(d, channels, [sc_list[i] for i in p], [sc_channels[i] for i in p])
-                    if not np.array_equal(np.asarray(t2), np.asarray(t)) or (names and t2.range() != t.range()):
+                    if not np.array_equal(np.asarray(t2), np.asarray(t)) or (names and [t2.range(i) for i in range(t2.shape[1])] != [t.range(i) for i in range(t.shape[1])]):
                         same = 'permutation %s of the pairing changes the result' % (p,)
                         break
                 except Exception as e:
